@@ -9,6 +9,7 @@ D1/D2 demand byte-identical results, D3/D4 monitor rendering and locations.
 import json
 import os
 import re
+import unicodedata
 import shutil
 import time
 
@@ -138,7 +139,7 @@ def corpus_sets():
 
 MISTAKES = ["dup_pub_fn", "dup_pub_const", "dup_pub_struct", "type_error_in_importer", "error_in_imported",
             "unresolved_import", "syntax_error", "undefined_in_two_modules", "cyclic_consts", "cyclic_structs",
-            "cyclic_struct_const", "multibyte_then_error", "triple_duplicate", "lints_in_two_files", "hex_separator_then_error", "deep_nesting", "lexical_error_in_name_position", "skipped_declarations", "long_line_then_error", "same_pub_fn_in_two_modules"]
+            "cyclic_struct_const", "multibyte_then_error", "triple_duplicate", "lints_in_two_files", "hex_separator_then_error", "deep_nesting", "lexical_error_in_name_position", "skipped_declarations", "long_line_then_error", "same_pub_fn_in_two_modules", "long_type_name"]
 
 
 def generated_set(seed, i):
@@ -193,7 +194,7 @@ def generated_set(seed, i):
                                    "const CYTAIL: usize = CYSIZE + 1;\n\nstruct CyPacket\n{\n\tpayload: [CYSIZE]u8,\n\ttail: [CYTAIL]u8,\n}\n")
         elif m == "multibyte_then_error":
             b = rng.randrange(sp.k)
-            ch = rng.choice(["é", "€", "😀", "ß字"])
+            ch = rng.choice(["é", "€", "😀", "ß字", "日本語", "字"])      # half of them two columns wide
             files[sp.files[b]] += ('\nfn zz_mb()\n{\n\tprint!("h%sllo %s", zz_missing_one);\n\tvar q = "%s%s"; var r = zz_missing_two;\n'
                                    '\tvar u = "http://x // not a comment %s"; var t = zz_missing_three; // %s "tail"\n}\n' % (ch, ch, ch, ch, ch, ch))
         elif m == "lints_in_two_files":
@@ -233,6 +234,12 @@ def generated_set(seed, i):
             two = rng.sample(range(sp.k), 2) if sp.k >= 2 else [0, 0]
             for b in two:
                 files[sp.files[b]] += "\npub fn zz_same(a: i32) -> i32\n{\n\treturn: a + %d\n}\n" % b
+        elif m == "long_type_name":
+            # diagnostics that quote a type with a very long name (and a nested array of pointers to it)
+            b = rng.randrange(sp.k)
+            long = "ZzAStructureWhoseNameGoesOnForMoreThanFortyCharacters"
+            files[sp.files[b]] += ("\nstruct %s\n{\n\tv: i32,\n}\n\nfn zz_long_type()\n{\n\tvar s = %s { v: 1 };\n\tvar q: i32 = s;\n"
+                                   "\tvar a: [3][2]&&%s;\n\tvar r: bool = a;\n}\n" % (long, long, long))
         elif m == "triple_duplicate":
             b = rng.randrange(sp.k)
             files[sp.files[b]] += "\nfn zz_tri()\n{\n}\n\nfn zz_tri()\n{\n}\n\nfn zz_tri()\n{\n}\n\nconst ZZ_TRI: i32 = 1;\nconst ZZ_TRI: i32 = 2;\nconst ZZ_TRI: i32 = 3;\n"
@@ -278,6 +285,9 @@ ZOO_CTX = [
     "var q: &i32 = &x; q = &%s;",
     "var q: &i32 = &x; &q = %s;",
     "var q: &&i32 = &&p; &&q = &%s;",
+    # two-column characters in front of the label, on the same line
+    'var w = "\u65e5\u672c\u8a9e"; var v: bool = %s;',
+    'var w = "\U0001f600 \u5b57"; var v = %s.nothing;',
 ]
 
 
@@ -645,6 +655,7 @@ def evaluate_set(s, wd, cfg, rng, stats):
         src_chars = set()
         for data in s["files"].values():
             src_chars |= set(data.decode(errors="replace"))
+        rendered_text = {}
         for color in ("auto", "always", "never"):
             for arrows in ("unicode", "ascii"):
                 clock, pid = sim_params()
@@ -653,6 +664,7 @@ def evaluate_set(s, wd, cfg, rng, stats):
                 stats["runs"] += 1
                 stats["render_configs"] += 1
                 where = "--color=%s --arrows=%s" % (color, arrows)
+                rendered_text[(color, arrows)] = (ANSI.sub(b"", r.out), ANSI.sub(b"", r.err), r.err)
                 if r.status() != rs.status():
                     viol.append(("render_failure", "%s exits %s but --silent exits %s\n%s" % (where, r.status(), rs.status(), r.err.decode(errors="replace")[-500:]), {}))
                     continue
@@ -667,6 +679,52 @@ def evaluate_set(s, wd, cfg, rng, stats):
                     bad = sorted({c for c in text if ord(c) > 127 and c not in src_chars and c != "�"})
                     if bad:
                         viol.append(("ascii_arrows_has_non_ascii", "%s prints %r" % (where, bad[:8]), {}))
+    # colour only colours: without the escape sequences a coloured report is the colourless one,
+    # and every coloured line ends with the colour switched off
+    if 'rendered_text' in dir() and not panicked:
+        for arrows in ("unicode", "ascii"):
+            a, n = rendered_text.get(("always", arrows)), rendered_text.get(("never", arrows))
+            if a and n and (a[0], a[1]) != (n[0], n[1]):
+                k = next((i for i in range(min(len(a[1]), len(n[1]))) if a[1][i] != n[1][i]), min(len(a[1]), len(n[1])))
+                viol.append(("colour_changes_text", "--arrows=%s: the coloured report minus its escape sequences is not the colourless report, at byte %d of stderr: %r vs %r" %
+                             (arrows, k, a[1][max(0, k - 60):k + 40], n[1][max(0, k - 60):k + 40]), {}))
+                break
+            if a:
+                for line in a[2].split(b"\n"):
+                    last = None
+                    for m in ANSI.finditer(line):
+                        last = m.group(0)
+                    if last is not None and last not in (b"\x1b[0m", b"\x1b[m"):
+                        viol.append(("colour_left_switched_on", "--arrows=%s: a line of the coloured report ends with the colour still on: %r" % (arrows, line[-120:]), {}))
+                        break
+    # the source lines a report quotes are the lines of the source (tabs shown as four blanks)
+    if not panicked and base_r.rc == 1:
+        qtexts = {}
+        for n_, data in s["files"].items():
+            try:
+                qtexts[n_] = data.decode().split("\n")
+            except UnicodeDecodeError:
+                qtexts[n_] = None
+        cur = None
+        for line in base_r.err.decode(errors="replace").split("\n"):
+            hm = re.match(r"^\s*(?:,-|\|-)\[ ?([^\]\s]+):\d+:\d+ ?\]", line)
+            if hm:
+                cur = hm.group(1)
+                continue
+            qm = re.match(r"^\s*(\d+) \| (.*)$", line)
+            if qm and cur in qtexts and qtexts[cur] is not None:
+                ln = int(qm.group(1))
+                if 1 <= ln <= len(qtexts[cur]):
+                    want = qtexts[cur][ln - 1].rstrip("\r")
+                    stats["quoted_lines_checked"] = stats.get("quoted_lines_checked", 0) + 1
+                    # (tabs are shown as blanks up to the next tab stop: compared modulo runs of blanks)
+                    # and after the arrows of multi-line labels, which stand in front of the text)
+                    # (a colourless-ASCII rendering may show `?` for a character that is not ASCII)
+                    got_q = " ".join(qm.group(2).split())
+                    want_q = " ".join(want.split())
+                    if not got_q.endswith(want_q) and not got_q.endswith("".join(c if ord(c) < 128 else "?" for c in want_q)) and "\x0b" not in want and "\x0c" not in want:
+                        viol.append(("quoted_line_differs_from_source", "%s line %d is quoted as %r but reads %r" % (cur, ln, qm.group(2)[:120], want[:120]), {}))
+                        break
     # a failing compilation says why in a diagnostic of its own: a code from the catalogue
     # (not a bare message of a library underneath, without code or location)
     # (the tool's own top-level `Error: ...` lines - unreadable input and the like - are C18's business)
@@ -726,6 +784,7 @@ def check_locations_structured(s, wd, stats):
     stats["runs"] += 1
     viol = []
     starts = set()      # (file, line, column) of the start of every Location of every diagnostic
+    label_texts = {}    # (file, line) -> texts under the single-line Locations that start on that line
     have_all = True
     for line in r.out.decode(errors="replace").splitlines():
         try:
@@ -750,6 +809,8 @@ def check_locations_structured(s, wd, stats):
                 ls = t0.rfind("\n", 0, a0) + 1
                 nl = 1 + t0.count("\n", 0, a0)
                 starts.add((fn0, nl, a0 - ls + 1))
+                if "\n" not in t0[a0:int(_b0)]:
+                    label_texts.setdefault((fn0, nl), set()).add(" ".join(t0[a0:int(_b0)].split()))
             for fn, a, b, ln, lo in LOC.findall(e):
                 fn = fn.encode().decode("unicode_escape") if "\\" in fn else fn
                 stats["locations_checked"] += 1
@@ -811,6 +872,40 @@ def check_locations_structured(s, wd, stats):
             if fn in texts and texts[fn] is not None and (fn, int(line), int(col)) not in starts:
                 near = sorted(x for x in starts if x[0] == fn)[:4]
                 viol.append(("header_is_no_location", "the report says %s:%s:%s but no location of any diagnostic starts there (locations start at %s)" % (fn, line, col, near)))
+                break
+    # the underline of a label stands under the text the label is about: counted in
+    # terminal columns (wide characters take two, combining ones none)
+    if rendered and have_all and label_texts and not viol:
+        cur = None
+        lines = rendered.split("\n")
+        for k, line in enumerate(lines[:-1]):
+            hm = re.match(r"^\s*(?:,-|\|-)\[ ?([^\]\s]+):\d+:\d+ ?\]", line)
+            if hm:
+                cur = hm.group(1)
+                continue
+            qm = re.match(r"^(\s*\d+ \| )(.*)$", line)
+            mm = re.match(r"^(\s*\| )([ ^|\-]*)$", lines[k + 1])
+            if not (qm and mm and cur in texts and len(qm.group(1)) == len(mm.group(1))) or "^" not in mm.group(2):
+                continue
+            wanted = label_texts.get((cur, int(qm.group(1).split()[0])))
+            if not wanted:
+                continue
+            # (a colourless-ASCII rendering may show `?` for a character that is not ASCII)
+            wanted = wanted | {"".join(c if ord(c) < 128 else "?" for c in w) for w in wanted}
+            cols = []       # display column of every printed character of the quoted line
+            c = 0
+            for ch in qm.group(2):
+                cols.append(c)
+                c += 0 if unicodedata.category(ch) in ("Mn", "Me", "Cf") else (2 if unicodedata.east_asian_width(ch) in ("W", "F") else 1)
+            for run in re.finditer(r"[\^|\-]*\^[\^|\-]*", mm.group(2)):
+                covered = "".join(ch for ch, col in zip(qm.group(2), cols) if run.start() <= col < run.end())
+                covered = " ".join(covered.split())
+                stats["underlines_checked"] = stats.get("underlines_checked", 0) + 1
+                if covered and covered not in wanted and not any(w and (w in covered or covered in w) for w in wanted):
+                    viol.append(("underline_not_under_labelled_text", "%s line %s: the underline at columns %d-%d stands under %r, the labels of that line are about %s" %
+                                 (cur, qm.group(1).split()[0], run.start(), run.end(), covered, sorted(wanted)[:4])))
+                    break
+            if viol:
                 break
     seen = {}
     for c, d in viol:
@@ -929,7 +1024,7 @@ def run(tier, seed):
         if budget and time.time() - t0 > budget:
             break
     tot = {"runs": 0, "compiler_panics": 0, "sets_with_diagnostics": 0, "render_configs": 0, "locations_checked": 0,
-           "verbose_runs": 0, "named_spans_checked": 0, "messages_checked": 0, "lexical_spans_checked": 0, "secondary_spans_checked": 0, "ambient_runs": 0, "delivery_runs": 0}
+           "verbose_runs": 0, "named_spans_checked": 0, "messages_checked": 0, "lexical_spans_checked": 0, "secondary_spans_checked": 0, "ambient_runs": 0, "delivery_runs": 0, "quoted_lines_checked": 0, "underlines_checked": 0}
     diag_lists = set()
     by_kind = {}
     multi = 0
@@ -996,6 +1091,8 @@ def run(tier, seed):
         "verbose_mode_runs": tot["verbose_runs"],
         "ambient_variation_runs": tot["ambient_runs"],
         "delivery_variation_runs": tot["delivery_runs"],
+        "quoted_source_lines_checked": tot["quoted_lines_checked"],
+        "underlines_checked": tot["underlines_checked"],
         "large_program_run_build_executions": large_runs,
         "aslr_probe_sets": aslr_n,
         "aslr_probe_differences": aslr_diff,
